@@ -33,11 +33,19 @@ func (e *Engine) freshFields(p Ptr, st *types.Struct, hint string) {
 	}
 }
 
+// isGarbage: the path condition forces the value to start with 0xFF (vf.Garbage): no decoder accepts it.
+func (e *Engine) isGarbage(expr string) bool {
+	return e.S.CheckWith("(not (str.prefixof \"\\u{ff}\" "+expr+"))") == "unsat"
+}
+
 func (e *Engine) stub3(fn *ssa.Function, args []any) (any, bool) {
 	switch fn.String() {
 	case "(*encoding/base64.Encoding).DecodeString":
 		if sym, ok := e.resolve(strE(args[1]), keysOf(b64Of)); ok {
 			return Tuple{BytesV{E: b64Of[sym]}, IfaceV{}}, true
+		}
+		if e.isGarbage(strE(args[1])) {
+			return Tuple{BytesV{E: `""`, Nil: true}, e.mkErr("illegal base64 data")}, true
 		}
 		ok := SymBool{e.freshSym("Bool", "b64ok")}
 		if e.branch(ok) {
@@ -61,6 +69,9 @@ func (e *Engine) stub3(fn *ssa.Function, args []any) (any, bool) {
 	case "crypto/subtle.ConstantTimeCompare":
 		return SymInt{"(ite (= " + bytesE(args[0]) + " " + bytesE(args[1]) + ") 1 0)"}, true
 	case "google.golang.org/protobuf/proto.Unmarshal":
+		if e.isGarbage(bytesE(args[0])) {
+			return e.mkErr("proto: cannot parse invalid wire-format data"), true
+		}
 		ok := SymBool{e.freshSym("Bool", "protook")}
 		if !e.branch(ok) {
 			return e.mkErr("proto: cannot parse invalid wire-format data"), true
